@@ -18,7 +18,7 @@ LEVEL_TEXT = ('Static analysis (panic-site enumeration over MIR of every crate f
               'extension_degree_from_proof_bytes, verify_batch and the serde visitor). Decides that each MIR Assert, each call to a curated '
               'panicking function and each boundary call with a documented precondition is discharged by a dominating guard / range fact '
               'or is individually tabled with a reason; that there is no recursion; that loops are iterator-driven over finite collections; that '
-              'allocation sizes come from lengths. Does not decide panics inside dependencies beyond the enumerated preconditions, nor wall-clock bounds.')
+              'allocation sizes come from lengths (never from decoded bytes or a deserializer\'s size hint); every method of a serde visitor impl is an entry point. Does not decide panics inside dependencies beyond the enumerated preconditions, nor wall-clock bounds.')
 ASSUMPTIONS = ['dependencies panic only on the documented preconditions enumerated here (precomputed Straus length assertions)',
                'statements are built through RangeStatement::init with library-provided Pedersen generators (|g_base_vec| == extension degree)',
                'debug_assert in Scalar::batch_invert (a zero input) needs y == 1, a 2^-252 event on a hash output']
